@@ -12,7 +12,9 @@
 (*  "crash": [plan, hasold, final ("absent" | "old" | "new" | "partial"),  *)
 (*     first, second (reader outcomes of two successive fresh processes:   *)
 (*     "old" | "new" | "searched" | "error"), other (outcome for an entry  *)
-(*     stored before the crash: "hit" | "searched" | "error")]             *)
+(*     stored before the crash: "hit" | "searched" | "error"), other_auto  *)
+(*     (the same for a process that lets the library detect the directory  *)
+(*     layout)]                                                            *)
 (* Verdict <<"V", c, clause>>.                                             *)
 (***************************************************************************)
 EXTENDS Data, Naturals, FiniteSets
@@ -48,6 +50,7 @@ Clause(k) ==
         ELSE IF k.final = "old" /\ k.first \notin {"old", "searched"} THEN "old-entry-lost"
         ELSE IF k.final = "new" /\ k.first \notin {"new", "searched"} THEN "new-entry-not-used"
         ELSE IF k.other # "hit" THEN "entry-stored-before-the-crash-unreadable"
+        ELSE IF k.other_auto # "hit" THEN "entry-stored-before-the-crash-unreadable-with-default-layout-detection"
         ELSE "ok"
 
 Init == c = 1
